@@ -1124,6 +1124,177 @@ def rules(rep, m):
                             % (f.name, render(dv)), where=m.rel(loc(x)))
                 r10.fail()
 
+    # R-C18-11 -----------------------------------------------------------
+    r11 = rep.rule("R-C18-11", "the duration-weighted median is found by a search over the running weight sums: the total is the "
+                   "sum of all weights, the median's threshold is exactly half of it (quartiles: a quarter / three quarters), "
+                   "and the weights decide WHICH sample is reported but do not enter its value - a value that moves between "
+                   "two samples in proportion to the weights lies strictly between them and then has more than half of the "
+                   "weight on one side", floor=4)
+    for fname, want_shares in (("cmb_timeseries_median", [0.5]), ("cmb_timeseries_fivenum_print", [0.25, 0.5, 0.75])):
+        f = m.need(fname)
+        cx = FuncCtx(m, f)
+        # weight-derived variables (by name of the root variable)
+        tainted = set()
+
+        def mentions_weight(n_):
+            for y in walk(n_):
+                if y["kind"] == "MemberExpr" and y.get("name") == "wa":
+                    return True
+                if y["kind"] == "DeclRefExpr" and y["ref"]["id"] in tainted:
+                    return True
+            return False
+        decls = {d["id"]: d for d in walk(f.body) if d["kind"] == "VarDecl"}
+
+        def root_ref(n_):
+            n_ = strip(n_, casts=True)
+            while n_["kind"] in ("ArraySubscriptExpr", "MemberExpr", "UnaryOperator") or \
+                    (n_["kind"] == "BinaryOperator" and n_.get("opcode") in ("+", "-")):
+                n_ = strip(kids(n_)[0], casts=True)
+            return n_ if n_["kind"] == "DeclRefExpr" else None
+        changed = True
+        while changed:
+            changed = False
+            for d in walk(f.body):
+                if d["kind"] == "VarDecl" and kids(d) and d["id"] not in tainted and mentions_weight(kids(d)[0]):
+                    tainted.add(d["id"])
+                    changed = True
+            # a pointer local that is written through taints the array it was pointed at
+            for tid in list(tainted):
+                d = decls.get(tid)
+                if d is not None and "*" in (d.get("type") or "") and kids(d):
+                    q = root_ref(kids(d)[0])
+                    if q is not None and q["ref"]["id"] not in tainted and q["ref"].get("kind") != "ParmVarDecl":
+                        tainted.add(q["ref"]["id"])
+                        changed = True
+            for l, r_, k_, n_ in inv.stores(f):
+                if r_ is None or not mentions_weight(r_):
+                    continue
+                root = strip(l, casts=True)
+                while root["kind"] in ("ArraySubscriptExpr", "MemberExpr", "UnaryOperator"):
+                    root = strip(kids(root)[0], casts=True)
+                if root["kind"] == "DeclRefExpr" and root["ref"]["id"] not in tainted:
+                    tainted.add(root["ref"]["id"])
+                    changed = True
+        # the total: a scalar accumulated with += of wa[i] (or *p, p walking over wa) in a loop over all samples
+        totals = {}
+        for lp in [x for x in walk(f.body) if x["kind"] in ("ForStmt", "WhileStmt")]:
+            ivars, guard = inv.induction_vars(cx, f, lp)
+            trip = inv.trip_count(ivars, guard)
+            for y in walk(kids(lp)[-1]):
+                if y["kind"] == "CompoundAssignOperator" and y.get("opcode") == "+=":
+                    tg, src = strip(kids(y)[0], casts=True), strip(kids(y)[1], casts=True)
+                    if tg["kind"] != "DeclRefExpr":
+                        continue
+                    whole = None
+                    if src["kind"] == "ArraySubscriptExpr" and cx.canon(kids(src)[0]).endswith(("->wa", ".wa")):
+                        ix = strip(kids(src)[1], casts=True)
+                        whole = trip is not None and ix["kind"] == "DeclRefExpr" and ivars.get(ix["ref"]["name"]) == ("0", 1)
+                    elif src["kind"] == "UnaryOperator" and src.get("opcode") == "*":
+                        q = strip(kids(src)[0], casts=True)
+                        if q["kind"] == "DeclRefExpr" and q["ref"]["name"] in ivars and ivars[q["ref"]["name"]][0].endswith(("->wa", ".wa")):
+                            whole = trip is not None and ivars[q["ref"]["name"]][1] == 1
+                    if whole is not None:
+                        totals[tg["ref"]["name"]] = (trip, whole, y)
+        for nm, (trip, whole, y) in totals.items():
+            r11.instance("%s: total weight %s summed over %s round(s)" % (fname, nm, trip))
+            if not whole or not ((trip or "").endswith("count") or (trip or "").startswith("cmb_timeseries_copy(")):
+                rep.finding(r11, fname, "median:total", "%s sums the weights over %s round(s) from a cursor that is not 0,1,2,...: the "
+                            "total must cover every sample of the sorted copy, whose zero-weight closing sample can be anywhere"
+                            % (fname, trip), where=m.rel(loc(y)))
+                r11.fail()
+            else:
+                r11.ok()
+        if not totals:
+            raise AnalysisBroken("%s: no accumulation of the weights found" % fname)
+
+        # the searches: result = ... under (running[i] <= T && running[i+1] > T), possibly through boolean temporaries
+        def cond_nodes(node, depth=0):
+            out = []
+            chain = inv.enclosing_chain(f, node) + [node]
+            for i_, anc in enumerate(chain[:-1]):
+                if anc["kind"] == "IfStmt" and chain[i_ + 1] is not kids(anc)[0]:
+                    out.append(kids(anc)[0])
+            res = []
+            for c_ in out:
+                res.append(c_)
+                for y in walk(c_):
+                    if y["kind"] == "DeclRefExpr" and "[" not in (y.get("type") or "") and depth < 4 and \
+                            (y.get("type") or "") in ("bool", "_Bool", "int"):
+                        for l, r_, k_, n_ in inv.stores(f):
+                            l0 = strip(l, casts=True)
+                            if l0["kind"] == "DeclRefExpr" and l0["ref"]["id"] == y["ref"]["id"] and r_ is not None:
+                                res.append(r_)
+                                res.extend(cond_nodes(n_, depth + 1))
+            return res
+
+        def thresholds(cn):
+            out = set()
+            for y in walk(cn):
+                if y["kind"] == "BinaryOperator" and y.get("opcode") in ("<", "<=", ">", ">="):
+                    a_, b_ = strip(kids(y)[0], casts=True), strip(kids(y)[1], casts=True)
+                    for u, v in ((a_, b_), (b_, a_)):
+                        if u["kind"] in ("ArraySubscriptExpr", "UnaryOperator") and mentions_weight(u) and \
+                                v["kind"] == "DeclRefExpr" and v["ref"]["id"] in tainted:
+                            out.add(cx.canon(v))
+            return out
+        shares = []
+        for l, r_, k_, n_ in inv.stores(f):
+            l0 = strip(l, casts=True)
+            if l0["kind"] != "DeclRefExpr" or r_ is None or k_ != "=" or not inv.in_loop(f, n_) or (l0.get("type") or "") != "double":
+                continue
+            ths = set()
+            for cn in cond_nodes(n_):
+                ths |= thresholds(cn)
+            if not ths:
+                continue
+            if len(ths) != 1:
+                raise AnalysisBroken("%s: %s is assigned under tests against several thresholds %s" % (fname, render(l0), sorted(ths)))
+            tc = next(iter(ths))
+            mm = re.fullmatch(r"\((\d*\.?\d+) \* (\w+)\)|\((\w+) \* (\d*\.?\d+)\)|\((\w+) / (\d*\.?\d+)\)", tc)
+            if not mm:
+                raise AnalysisBroken("%s: threshold %s of the weighted search is not a share of the total" % (fname, tc))
+            if mm.group(1):
+                share, base = float(mm.group(1)), mm.group(2)
+            elif mm.group(3):
+                share, base = float(mm.group(4)), mm.group(3)
+            else:
+                share, base = 1.0 / float(mm.group(6)), mm.group(5)
+            if base not in totals:
+                raise AnalysisBroken("%s: threshold %s is not taken from the total weight" % (fname, tc))
+            shares.append((share, render(l0), r_, n_))
+        got = sorted({round(s_[0], 6) for s_ in shares})
+        r11.instance("%s: shares searched %s" % (fname, got))
+        if got != want_shares:
+            rep.finding(r11, fname, "median:share", "%s searches the shares %s of the total weight; the median is the point at one half "
+                        "(five-number summary: 0.25, 0.5, 0.75)" % (fname, got), where=m.rel(f.where))
+            r11.fail()
+        else:
+            r11.ok()
+        for share, var, val, node in shares:
+            if abs(share - 0.5) > 1e-9:
+                continue
+            r11.instance("%s: median value %s = %s" % (fname, var, render(val)[:80]))
+            def value_uses_weight(n_):
+                # a weight-derived quantity used as a number; as the index that selects a sample it is what a median does
+                n_ = strip(n_, casts=True)
+                if n_["kind"] == "ArraySubscriptExpr":
+                    return value_uses_weight(kids(n_)[0])
+                if n_["kind"] == "MemberExpr" and n_.get("name") == "wa":
+                    return True
+                if n_["kind"] == "DeclRefExpr":
+                    return n_["ref"]["id"] in tainted
+                return any(value_uses_weight(c_) for c_ in kids(n_))
+            if value_uses_weight(val):
+                rep.finding(r11, fname, "median:weight-interpolated", "%s reports %s = %s: a point between two neighbouring samples "
+                            "placed in proportion to the weights. Whenever half of the total weight falls strictly inside the second "
+                            "sample's weight, that point lies strictly between the two samples and has more than half of the "
+                            "weight strictly above it - not a median by the definition of the property (x = 1, 2 held for 1, 3 "
+                            "time units: 1.33 reported, three quarters of the weight above it; the median is 2)"
+                            % (fname, var, render(val)[:120]), where=m.rel(loc(node)))
+                r11.fail()
+            else:
+                r11.ok()
+
 
 def run(tier="quick"):
     models = common.load_models(tier)
